@@ -476,6 +476,15 @@ pub fn run_c03(out: &mut Out, thorough: bool, seed: u64) {
     for &(bits, batch) in if thorough { &[(2usize, 3usize), (3, 4), (4, 4), (5, 3)][..] } else { &[(3usize, 3usize), (4, 3)][..] } {
         c03_batch(out, &mut rng, bits, batch, bits.min(4), true);
     }
+    // rejection sampling inside the protocol: every third (fifth) 8-byte block of every XOF stream is a value the
+    // sampler refuses, so the correlated-randomness streams that verify_init fast-forwards through, the
+    // authenticators and the verification randomness all contain rejected draws
+    for &(every, bits, batch) in if thorough { &[(3usize, 6usize, 3usize), (5, 9, 2), (2, 4, 2)][..] } else { &[(3usize, 6usize, 2usize), (5, 4, 2)][..] } {
+        rec::plant(Some((every, 8)));
+        c03_batch(out, &mut rng, bits, batch, bits, false);
+        rec::plant(None);
+        out.count("c03.planted-rejections");
+    }
     for (bits, batch, t) in [(4usize, 30usize, 3u64), (8, 40, 4), (12, 25, 2)] {
         heavy_hitters(out, &mut rng, bits, if thorough { batch * 2 } else { batch }, t);
     }
@@ -795,6 +804,26 @@ fn c04_report(out: &mut Out, rng: &mut Sm, bits: usize, thorough: bool) {
                             let mixed = vmsg(out, bits, &ap, &[v1[0].clone(), v2[1].clone()]);
                             out.oracle(mixed.is_none(), || tag("round-one share combined with a round-two share"), || "not refused".into());
                         }
+                        // shares of no length at all, of length two, and a single share against an empty one: the
+                        // combiner accepts exactly lengths three (round one) and one (round two)
+                        let shapes: Vec<(&str, Vec<Poplar1FieldVec>)> = if level + 1 == bits {
+                            vec![
+                                ("two empty shares", vec![Poplar1FieldVec::Leaf(vec![]), Poplar1FieldVec::Leaf(vec![])]),
+                                ("two shares of length two", vec![Poplar1FieldVec::Leaf(vec![Field255::zero(); 2]), Poplar1FieldVec::Leaf(vec![Field255::zero(); 2])]),
+                                ("a round-two share and an empty share", vec![v2[0].clone(), Poplar1FieldVec::Leaf(vec![])]),
+                            ]
+                        } else {
+                            vec![
+                                ("two empty shares", vec![Poplar1FieldVec::Inner(vec![]), Poplar1FieldVec::Inner(vec![])]),
+                                ("two shares of length two", vec![Poplar1FieldVec::Inner(vec![Field64::zero(); 2]), Poplar1FieldVec::Inner(vec![Field64::zero(); 2])]),
+                                ("a round-two share and an empty share", vec![v2[0].clone(), Poplar1FieldVec::Inner(vec![])]),
+                            ]
+                        };
+                        for (what, sh) in shapes {
+                            let r = vmsg(out, bits, &ap, &sh);
+                            out.oracle(r.is_none(), || tag(what), || "the combiner produced a message".into());
+                            out.count("c04.odd-shapes");
+                        }
                     }
                     // a message of the other field (inner vs leaf level) offered to this state
                     let other_level = if level + 1 == bits { 0 } else { bits - 1 };
@@ -895,11 +924,16 @@ pub fn c18(out: &mut Out, rng: &mut Sm, thorough: bool) {
         let input = rand_bits(rng, bits);
         let Some(rep) = shard(out, bits, &ctx, &input, &nonce, &random128(rng)) else { continue };
         let levels: Vec<usize> = if bits == 1 { vec![0] } else { vec![0, bits - 1] };
-        for level in levels {
+        // candidate sets of two prefixes and of a single prefix (nothing to compress in the sketch, yet the
+        // verification key must still be bound)
+        let level_sets: Vec<(usize, bool)> = levels.iter().flat_map(|l| [(*l, false), (*l, true)]).collect();
+        for (level, single) in level_sets {
             let mut cands = vec![input[..level + 1].to_vec()];
-            let mut sib = cands[0].clone();
-            sib[level] = !sib[level];
-            cands.push(sib);
+            if !single {
+                let mut sib = cands[0].clone();
+                sib[level] = !sib[level];
+                cands.push(sib);
+            }
             cands.sort();
             let ap = Poplar1AggregationParam::try_from_prefixes(cands.iter().map(|p| IdpfInput::from_bools(p)).collect()).unwrap();
             // a run in which aggregator `id` sees (ctx, nonce, key, role) possibly different from the other's
